@@ -13,24 +13,24 @@ open UBidi UBidi.BidiClass UBidi.Lemmas.C01Seq UBidi.Lemmas.C01Pure
 
 /-! ### the flags -/
 
-theorem iiStep_flags (ds : DataSource) (enc : Enc) (d : Option Nat) (st : IIState) (s : Seg) :
-    (iiStep ds enc false d st s).pureLtr = (st.pureLtr && pureClass (ds.cls s.cp)) ∧
-    (iiStep ds enc false d st s).hasIso = (st.hasIso || (ds.cls s.cp).isIsolateInitiator) := by
+theorem iiStep_flags (ds : DataSource) (T : Text) (d : Option Nat) (st : IIState) (s : Seg) :
+    (iiStep ds T false d st s).pureLtr = (st.pureLtr && pureClass (ds.cls s.cp)) ∧
+    (iiStep ds T false d st s).hasIso = (st.hasIso || (ds.cls s.cp).isIsolateInitiator) := by
   unfold iiStep
   simp only []
   generalize ds.cls s.cp = c
   cases c <;> simp only [pureClass, isIsolateInitiator, Bool.and_true, Bool.and_false, Bool.or_false,
     Bool.or_true, Bool.false_eq_true, if_false] <;> (repeat' split) <;> simp_all
 
-theorem fold_flags (ds : DataSource) (enc : Enc) (d : Option Nat) : ∀ (segs : List Seg) (st : IIState),
-    (segs.foldl (iiStep ds enc false d) st).pureLtr =
+theorem fold_flags (ds : DataSource) (T : Text) (d : Option Nat) : ∀ (segs : List Seg) (st : IIState),
+    (segs.foldl (iiStep ds T false d) st).pureLtr =
       (st.pureLtr && (segs.map (fun s => ds.cls s.cp)).all pureClass) ∧
-    (segs.foldl (iiStep ds enc false d) st).hasIso =
+    (segs.foldl (iiStep ds T false d) st).hasIso =
       (st.hasIso || (segs.map (fun s => ds.cls s.cp)).any isIsolateInitiator)
   | [], st => by simp
   | s :: segs, st => by
-    obtain ⟨h1, h2⟩ := fold_flags ds enc d segs (iiStep ds enc false d st s)
-    obtain ⟨g1, g2⟩ := iiStep_flags ds enc d st s
+    obtain ⟨h1, h2⟩ := fold_flags ds T d segs (iiStep ds T false d st s)
+    obtain ⟨g1, g2⟩ := iiStep_flags ds T d st s
     rw [List.foldl_cons, h1, h2, g1, g2]
     simp [Bool.and_assoc, Bool.or_assoc]
 
@@ -40,7 +40,7 @@ theorem single_flags (ds : DataSource) (t : Text) (d : Option Nat) :
     (computeInitialInfo ds t d false).lastHasIso =
       (t.segs.map (fun s => ds.cls s.cp)).any isIsolateInitiator := by
   rw [UBidi.Lemmas.C10.cii_eq]
-  obtain ⟨h1, h2⟩ := fold_flags ds t.enc d t.segs { paraLevel := d }
+  obtain ⟨h1, h2⟩ := fold_flags ds t d t.segs { paraLevel := d }
   simp only [UBidi.Lemmas.C10.finishII]
   exact ⟨by rw [h1]; rfl, by rw [h2]; rfl⟩
 
